@@ -1767,7 +1767,7 @@ def pairs_cases(tier):
             cases.append({'cid': cid, 'items': FIXTURE + [op1, op2]})
             vs = bind_variants_small([op1, op2])
             if tier != 'thorough':
-                vs = [vs[(k + d * 7) % len(vs)] for d in range(3)] \
+                vs = [vs[(k + d * 7) % len(vs)] for d in range(2)] \
                     if vs else []
             for var in vs:
                 cases.append({'cid': cid, 'items': FIXTURE + var})
@@ -1814,7 +1814,7 @@ def main(rep):
             'all ordered pairs over the reduced alphabet (one variant per '
             'method) after the standard fixture; %s bind structures per pair '
             '(all segments x raise, nested blocks with caught / uncaught '
-            'inner raise)' % ('all' if rep.tier == 'thorough' else '3 of the'),
+            'inner raise)' % ('all' if rep.tier == 'thorough' else '2 of the'),
             'enumerated; second operation drawn from the state after the '
             'first', True)
     if wants(rep, 'random'):
